@@ -123,13 +123,13 @@ func New(p *Params, src DutySource, opt Options) *World {
 	w.Chain = NewChain(p, src)
 	w.Node = &Node{w: w, ExtraSpec: opt.ExtraSpec}
 	w.Accounts = &Accounts{w: w}
-	w.baseline = runtime.NumGoroutine()
+	w.baseline = fakes.GoroutineCount()
 	return w
 }
 
 // SetBaseline re-reads the goroutine baseline (call when the world is idle and
 // the harness itself has started long-lived goroutines).
-func (w *World) SetBaseline() { w.baseline = runtime.NumGoroutine() }
+func (w *World) SetBaseline() { w.baseline = fakes.GoroutineCount() }
 
 // Baseline returns the goroutine baseline.
 func (w *World) Baseline() int { return w.baseline }
@@ -244,7 +244,12 @@ func (w *World) Quiesce() error {
 			stable++
 			lastSeq = seq1
 			if stable >= 3 {
-				return nil
+				// runtime.NumGoroutine can be transiently too low on a loaded machine: confirm with a
+				// consistent (stop-the-world) count before declaring quiescence
+				if fakes.GoroutineCount() <= w.baseline+extraOf() {
+					return nil
+				}
+				stable = 0
 			}
 			runtime.Gosched()
 			continue
